@@ -11,8 +11,8 @@ from . import _rw, c01
 ID = "C09"
 TECHNIQUE = ("property-based differential testing (Hypothesis): one apply() of all modifications vs one RewritingContext "
              "per modification in address order, compared through a UUID-free canonical dump; plus in-situ model checks "
-             "of the rewrite caches at every step through guarded hooks (queries run in a forked child so that they do "
-             "not perturb the rewrite)")
+             "of the rewrite caches at every step through guarded hooks (the cache state is snapshotted and restored around the "
+             "queries so that they do not perturb the rewrite)")
 RULE = ("cases as in C01-C03 (no alignment, no gaps) biased towards dependencies: later patches name / branch to / call "
         "labels whose blocks earlier modifications moved, split, joined or deleted; functions present so that the "
         "function and return-edge caches matter. Oracle 1: canonical_dump(batch) == canonical_dump(sequential) up to "
@@ -56,7 +56,7 @@ def in_known_class(fid, spec, failure):
 
 
 # ---------------------------------------------------------------------------
-# oracle 2: cache checks inside a forked child
+# oracle 2: cache checks at every hook event
 # ---------------------------------------------------------------------------
 class _Shadow:
     """direct-assignment model of symbol referents, fed by wrapped cache calls"""
@@ -82,7 +82,7 @@ class _Shadow:
 
 
 def _check_caches(cache, shadow, event, patch_names):
-    """runs in the child; returns a problem string or None"""
+    """returns a problem string or None (perturbs the reference cache: callers snapshot/restore)"""
     import gtirb
 
     m = cache.module
@@ -162,6 +162,7 @@ def _check_caches(cache, shadow, event, patch_names):
 
 
 def _run_batch_with_hooks(case, built, out):
+    import gtirb
     import gtirb_rewriting
     import gtirb_rewriting._verif_hooks as H
     from gtirb_rewriting._modify.cache import ReferenceCache
@@ -173,6 +174,9 @@ def _run_batch_with_hooks(case, built, out):
     orig_set = ReferenceCache.set_referent
 
     def w_retarget(self, block, to_block, at_end):
+        # referents assigned directly since the last call (split_block does that)
+        for s_ in tuple(block.references):
+            shadow.ref[s_] = (block, bool(s_.at_end))
         has = any(block.references) or block in self._references
         orig_retarget(self, block, to_block, at_end)
         if has:
@@ -197,35 +201,43 @@ def _run_batch_with_hooks(case, built, out):
         for s in built.module.symbols:
             if s.referent is not None and s not in cache.reference_cache._referents:
                 shadow.ref[s] = (s.referent, bool(s.at_end))
-        r, w = os.pipe()
-        pid = os.fork()
-        if pid == 0:
-            code = 0
-            try:
-                os.close(r)
-                msg = _check_caches(cache, shadow, event, names)
-                if msg:
-                    os.write(w, msg.encode()[:900])
-                    code = 3
-            except BaseException as e:  # noqa
-                try:
-                    os.write(w, ("child raised " + repr(e)).encode()[:900])
-                except Exception:
-                    pass
-                code = 4
-            finally:
-                os._exit(code)
-        os.close(w)
-        data = b""
-        while True:
-            chunk = os.read(r, 1024)
-            if not chunk:
-                break
-            data += chunk
-        os.close(r)
-        _pid, status = os.waitpid(pid, 0)
-        if os.WEXITSTATUS(status) in (3, 4):
-            problems.append((event, data.decode(errors="replace"), os.WEXITSTATUS(status)))
+        # The reference-cache queries mutate the cache (path compression,
+        # indirect -> direct), so they run on the live object and the
+        # complete reference state is restored afterwards: the rewrite
+        # continues exactly as if nobody had looked.
+        import copy
+
+        rc = cache.reference_cache
+        m = built.module
+        memo = {}
+        for s_ in m.symbols:
+            memo[id(s_)] = s_
+        for b_ in list(m.byte_blocks) + list(m.proxies):
+            memo[id(b_)] = b_
+        for b_ in list(rc._references):
+            memo[id(b_)] = b_
+        for node in rc._referents.values():
+            p_ = node
+            while not isinstance(p_, gtirb.Block):
+                p_ = p_.parent
+            memo[id(p_)] = p_
+        saved = copy.deepcopy((rc._referents, rc._references), memo)
+        saved_syms = [(s_, s_.referent, s_.at_end) for s_ in m.symbols]
+        try:
+            msg = _check_caches(cache, shadow, event, names)
+            code = 3
+        except Exception as e:  # noqa
+            msg = "check raised " + repr(e)
+            code = 4
+        finally:
+            rc._referents, rc._references = saved
+            for s_, r_, e_ in saved_syms:
+                if s_.referent is not r_:
+                    s_.referent = r_
+                if s_.at_end != e_:
+                    s_.at_end = e_
+        if msg:
+            problems.append((event, msg[:900], code))
 
     ctx = gtirb_rewriting.RewritingContext(built.module, Lm.functions_of(built.module))
 
